@@ -35,6 +35,7 @@ type TierCfg struct {
 	MaxAlloc     int            `json:"max_alloc"`
 	MaxFanout    int            `json:"max_fanout"`
 	TimeoutMs    int            `json:"solver_timeout_ms"`
+	BudgetS      float64        `json:"budget_s"`
 	ReverseMaps  bool           `json:"reverse_maps"`
 	Skip         bool           `json:"skip"`
 }
@@ -196,8 +197,8 @@ func main() {
 		cfg := &sym.Config{
 			MaxInstr: def64(tc.MaxInstr, 3_000_000), MaxAlloc: defInt(tc.MaxAlloc, 4096), MaxFanout: defInt(tc.MaxFanout, 64),
 			MaxDecisions: defInt(tc.MaxDecisions, 2000), MaxPaths: defInt(tc.MaxPaths, 200000), ReverseMaps: tc.ReverseMaps,
-			Bounds: tc.Bounds, Solver: *solver, TimeoutMs: defInt(tc.TimeoutMs, 30000), Workers: *workers, Seed: seed,
-			Samples: 4, MaxViolPerLabel: 2, NoInitOK: map[string]bool{},
+			Bounds: tc.Bounds, Solver: *solver, TimeoutMs: defInt(tc.TimeoutMs, 20000), Workers: *workers, Seed: seed,
+			Samples: 4, MaxViolPerLabel: 2, NoInitOK: map[string]bool{}, BudgetS: tc.BudgetS, Progress: *verbose,
 		}
 		if *tier == "thorough" {
 			cfg.Samples = 12
@@ -220,8 +221,8 @@ func main() {
 		r := &hres{cfg: h, tc: tc, ex: ex, wall: time.Since(th).Seconds()}
 		results = append(results, r)
 		st := &ex.Stats
-		fmt.Printf("harness %-28s paths=%d %v decisions=%d queries=%d (sat %d unsat %d unknown %d) trivial-asserts=%d solver-asserts=%d solve=%.1fs wall=%.1fs\n",
-			h.Name, st.Paths, st.ByOutcome, st.Decisions, st.Queries, st.QuerySat, st.QueryUnsat, st.QueryUnknown, st.Trivial, st.AssertsSym, st.SolveTime.Seconds(), r.wall)
+		fmt.Printf("harness %-28s paths=%d %v pruned=%d decisions=%d queries=%d (sat %d unsat %d unknown %d) trivial-asserts=%d solver-asserts=%d solve=%.1fs wall=%.1fs\n",
+			h.Name, st.Paths, st.ByOutcome, st.Pruned, st.Decisions, st.Queries, st.QuerySat, st.QueryUnsat, st.QueryUnknown, st.Trivial, st.AssertsSym, st.SolveTime.Seconds(), r.wall)
 		// machinery health: these make the check BROKEN (exit 2), never "held"
 		if n := st.ByOutcome["unsupported"]; n > 0 {
 			broken = append(broken, fmt.Sprintf("%s: %d unsupported paths, e.g. %s", h.Name, n, first(st.Unsupported)))
@@ -233,7 +234,7 @@ func main() {
 			broken = append(broken, fmt.Sprintf("%s: %d inconclusive solver answers, e.g. %s", h.Name, n, first(st.Inconclusive)))
 		}
 		if st.Truncated {
-			broken = append(broken, fmt.Sprintf("%s: path budget %d exhausted (exploration truncated)", h.Name, cfg.MaxPaths))
+			broken = append(broken, fmt.Sprintf("%s: path budget %d or wall budget %.0fs exhausted (exploration truncated)", h.Name, cfg.MaxPaths, cfg.BudgetS))
 		}
 		if len(st.Reached) == 0 {
 			broken = append(broken, fmt.Sprintf("%s: vacuous — no path reached a Reach() witness", h.Name))
@@ -373,7 +374,7 @@ func main() {
 		hs = append(hs, map[string]any{
 			"name": r.cfg.Name, "func": r.cfg.Func, "claim": r.cfg.Claim, "bounds": r.tc.Bounds,
 			"limits":  map[string]any{"max_paths": r.ex.Cfg.MaxPaths, "max_instr_per_path": r.ex.Cfg.MaxInstr, "max_decisions_per_path": r.ex.Cfg.MaxDecisions, "solver_timeout_ms": r.ex.Cfg.TimeoutMs},
-			"paths":   st.Paths, "paths_by_outcome": st.ByOutcome, "decisions": st.Decisions, "instructions": st.Instrs,
+			"paths":   st.Paths, "paths_by_outcome": st.ByOutcome, "infeasible_alternatives_pruned": st.Pruned, "decisions": st.Decisions, "instructions": st.Instrs,
 			"queries": st.Queries, "assertions_closed_by_simplifier": st.Trivial, "assertions_decided_by_solver": st.AssertsSym,
 			"assert_labels_executed": st.AssertLabels, "reach_witnesses": st.Reached, "unwinding_overruns": st.Unwind,
 			"longest_decision_vector": st.MaxTrace, "wall_s": r.wall, "outside_claim": r.cfg.Outside,
@@ -422,14 +423,16 @@ func main() {
 		fatal(2, "evidence: %v", err)
 	}
 
+	if len(broken) > 0 {
+		fmt.Println("CHECK-BROKEN (machinery problems; these are never a verdict):")
+		for _, b := range broken {
+			fmt.Println("  - " + b)
+		}
+	}
 	if violations > 0 {
 		os.Exit(1)
 	}
 	if len(broken) > 0 {
-		fmt.Println("CHECK-BROKEN (no verdict; this is a machinery problem, not a violation):")
-		for _, b := range broken {
-			fmt.Println("  - " + b)
-		}
 		os.Exit(2)
 	}
 	fmt.Printf("OK property=%s tier=%s paths=%d queries=%d validated=%d wall=%.1fs\n", *prop, *tier, states, queries, validated, time.Since(t0).Seconds())
@@ -508,6 +511,9 @@ func mergeTier(q, t TierCfg) TierCfg {
 	}
 	if t.TimeoutMs != 0 {
 		out.TimeoutMs = t.TimeoutMs
+	}
+	if t.BudgetS != 0 {
+		out.BudgetS = t.BudgetS
 	}
 	out.ReverseMaps = t.ReverseMaps
 	out.Skip = t.Skip
